@@ -255,6 +255,14 @@ func (nr *netRun) validateNew(n *Node, kind string, chid datatransfer.ChannelID)
 		}
 	}
 	if x == nil {
+		// the open call may not have returned yet: every transfer has its own DAG
+		for _, c := range nr.xs {
+			if !c.opened && c.root == n.ValBase && c.pull == (kind == "pull") {
+				x = c
+			}
+		}
+	}
+	if x == nil {
 		for _, c := range nr.xs {
 			if !c.opened && c.pull == (kind == "pull") {
 				x = c
